@@ -382,7 +382,7 @@ func c14R6(c *Ctx) {
 	for _, b := range fn.Blocks {
 		for _, in := range b.Instrs {
 			if mu, ok := in.(*ssa.MapUpdate); ok && kit.IsFieldLoad(mu.Map, namesF) {
-				if kit.DerivesFromPath(mu.Key, "cfg") {
+				if fromParam(mu.Key, argParam(fn, 2)) {
 					okNew = true
 				}
 			}
